@@ -665,6 +665,7 @@ func (l *loop) execute(h *simHost) {
 			}
 		}
 	}
+	l.settle(h)
 	l.record("exec")
 }
 
@@ -693,7 +694,23 @@ func (l *loop) progress(h *simHost, all bool) {
 			h.data[[2]uint64{sid, r.id}] = r.applied
 		}
 	}
+	l.settle(h)
 	l.record("progress")
+}
+
+// settle: dragonboat stops a replica as soon as it applies its own removal (from the log or from a snapshot); its data
+// stays. Part of every execute and progress event.
+func (l *loop) settle(h *simHost) {
+	for sid, r := range h.running {
+		g := l.groups[sid]
+		if g == nil || r.applied < 0 || r.applied >= len(g.hist) {
+			continue
+		}
+		if g.hist[r.applied].removed[r.id] {
+			delete(h.running, sid)
+			l.stats["removed_replica_stopped_itself"]++
+		}
+	}
 }
 
 func (l *loop) crash(h *simHost) {
